@@ -15,9 +15,10 @@ static void honest_gen(Plan *p, uint64_t run_seed, uint64_t variant, int tier)
 	/* TLCP clients may run without trust anchors (the tool's -cacert is optional) */
 	if (p->proto == P_TLCP && !p->mutual && rng_chance(&g, 1, 5)) p->cred_mode = 2;
 	/* cred_mode bits: 1 = the leaves carry extendedKeyUsage (serverAuth / clientAuth), 2 = TLCP client without trust anchors,
-	 * 4 = the client has a certificate and key configured although the server will not ask for one */
+	 * 4 = the client has a certificate and key configured although the server will not ask for one, 8 = see below */
 	if (rng_chance(&g, 1, 4)) p->cred_mode |= 1;
 	if (!p->mutual && rng_chance(&g, 1, 4)) p->cred_mode |= 4;
+	if (rng_chance(&g, 1, 3)) p->cred_mode |= 8;       /* 8 = the TLS_CONNECT objects are re-used, not fresh */
 }
 
 void honest_oracle(const Plan *p, const HonestOut *o, RunResult *r)
